@@ -31,7 +31,16 @@ RULE_TEXT = (
 )
 
 # allow-table of R10.3: semantic key -> (reason, optional grammar re-check)
+_GROUP_NONEMPTY = ("a sqlparse token group (Function / Identifier / Parenthesis) is never empty, so its last token exists", None)
 ALLOW = {
+    "parser.sqlfluff.utils.extract_identifier:list_child_segments():index:-1": ("an alias_expression / identifier-bearing segment has at least one non-negligible child (the identifier itself)", "alias-nonempty"),
+    "parser.sqlfluff.utils.extract_column_qualifier:list_child_segments():index:-1": ("a column_reference has at least one identifier child (Delimited, min 1)", "reference-nonempty"),
+    "BaseExtractor._add_dataset_from_expression_element:.segments:index:-1": ("a file_reference has at least one child (its path literal)", "reference-nonempty"),
+    "SqlParseColumn._extract_source_columns:.tokens:index:-1": _GROUP_NONEMPTY,
+    "parser.sqlparse.utils.get_subquery_parentheses:.tokens:index:-1": _GROUP_NONEMPTY,
+    "parser.sqlparse.utils.get_parameters:.tokens:index:-1": _GROUP_NONEMPTY,
+    "SwapPartitionHandler.handle:.tokens:index:-1": _GROUP_NONEMPTY,
+    "parser.sqlparse.utils.remove_parenthesis_between_union:[list]:index:-1": ("`offsets` is created as the non-empty list [-1] and only ever appended to", None),
     "LineageRunner.__str__:statements():index:cross-sequence": ("holders and statements are index-aligned: exactly one holder is appended per statement on every non-raising path (rule R05.1)", None),
     "lazy_method.<locals>.wrapper:param:args:index:0": ("decorator wrapper of bound methods: args[0] is self by construction of the call", None),
     "SqlFluffLineageAnalyzer._list_specific_statement_segment:.segments:index:0": (
@@ -62,6 +71,9 @@ def grammar_recheck(tag: Optional[str]) -> tuple[bool, str]:
         return len(ch) > 10 and "keyword" not in ch, f"statement -> {len(ch)} alternative statement types, no sibling tokens"
     if tag == "reference-nonempty":
         return "table_reference" in g.types() and "object_reference" in g.types(), "table_reference / object_reference present in the grammar"
+    if tag == "alias-nonempty":
+        ch = g.children("alias_expression")
+        return bool(ch), f"alias_expression -> {sorted(ch)[:6]}"
     if tag == "fee-nonempty":
         ch = g.children("from_expression_element")
         return "table_expression" in ch, f"from_expression_element -> {sorted(ch)}"
